@@ -13,6 +13,7 @@ ASSUMPTIONS = [
     'stub: the json module inside sqlite3_logica is replaced by identity on Python lists (the C boundary would realise symbolic values); print is silenced',
     'Set order: CrossHair models sets in insertion order, so its counterexample for "Set does not depend on arrival order" is a candidate only; lv/z3k/pyset.py (z3 model of CPython small-int set iteration, validated against the interpreter each run) produces the inputs, which are replayed through real SQLite',
     'family "builtins" (z3 over D(K), K=2): Range (incl. <=0 and as Element/Size/in argument), Size, Element with symbolic and out-of-range index, in as boolean, Least/Greatest, arithmetic incl. unary minus, the six comparisons, against the reference denotation; Range unrolled to 3',
+    'non-interference: for 12 list texts (all orders of [1,2,3] and of ["p","q","r"]) and every ordered pair (f, g) of SortList, Join, ArrayConcat (with itself / with an item), InList, g answers the same before and after f saw the same text (300 paths; the choice is branched on, the calls run natively with the real json module because CrossHair neutralises lru_cache in traced code); counterexamples replayed through real SQLite on one connection',
     'outside: ++, Split, ToString/ToInt64, Sort through SQL, Avg/Sum on floats (string theory / floats)',
 ]
 
@@ -39,6 +40,40 @@ def replay_udf(name, args):
             {'call': '%s(%s)' % (name, args), 'output': r.stdout[-800:]})
   finally:
     shutil.rmtree(d, ignore_errors=True)
+
+
+def replay_seq(name, args):
+  """the sequence is replayed through real SQLite on one connection: SELECT g(l); SELECT f(l);
+  SELECT g(l) on the same list literal"""
+  import re, json, itertools, inspect
+  from .. import real
+  from common import sqlite3_logica as S
+  nums = [int(x) for x in re.findall(r'-?\d+', args or '')]
+  p, f, g = (nums + [0, 0, 0])[:3]
+  perms = [list(q) for q in itertools.permutations([3, 1, 2])] + [list(q) for q in itertools.permutations(['q', 'p', 'r'])]
+  x = perms[p % 12]
+  lit = json.dumps(x)
+  src = inspect.getsource(S.ExtendConnectionWithLogicaFunctions)
+  names = {}
+  for py in ('SortList', 'Join', 'ArrayConcat', 'InList'):
+    m = re.search(r"create_function\('(\w+)',\s*\d+,\s*%s\b" % py, src)
+    names[py] = m.group(1) if m else py
+
+  def q(v):
+    return "'%s'" % v if isinstance(v, str) else str(v)
+  calls = {0: "%s('%s')" % (names['SortList'], lit), 1: "%s('%s', '-')" % (names['Join'], lit),
+           2: "%s('%s', '%s')" % (names['ArrayConcat'], lit, lit), 3: "%s(%s, '%s')" % (names['InList'], q(x[0]), lit),
+           4: "%s('%s', '%s')" % (names['ArrayConcat'], lit, json.dumps([x[1]]))}
+  con = real.connect()
+  try:
+    cur = con.cursor()
+    first = cur.execute('SELECT ' + calls[g % 5]).fetchall()
+    cur.execute('SELECT ' + calls[f % 5]).fetchall()
+    again = cur.execute('SELECT ' + calls[g % 5]).fetchall()
+  finally:
+    con.close()
+  return (first != again, 'a UDF answers differently after another UDF saw the same list: %r then %r' % (first, again),
+          {'list': lit, 'f': calls[f % 5], 'g': calls[g % 5], 'first': first, 'again': again})
 
 
 def set_order_part(out):
@@ -97,6 +132,8 @@ def kernel_part(out):
   names += ['k_limit_must_be_positive', 'k_array_concat_agg', 'k_array_concat', 'k_sort_list', 'k_in_list',
             'k_distinct_list_agg_content', 'k_join']
   kernels.run_kernels(out, 'sqlite UDFs', src, names, 600, replay_udf)
+  ssrc, snames = K.seq_source()
+  kernels.run_kernels(out, 'sqlite UDFs: calls do not interfere', ssrc, snames, 600, replay_seq)
   set_order_part(out)
 
 
